@@ -339,6 +339,7 @@ fn main() {
         "dec-cutsets" => dec_cutsets(&mut cx),
         "dec-random" => dec_random(&mut cx),
         "dec-bom" => dec_bom(&mut cx),
+        "dec-replay" => dec::replay(&mut cx.sh, &arg_val(&args, "--in").expect("--in FILE")),
         _ => {
             eprintln!("unknown profile {}", profile);
             std::process::exit(2);
